@@ -40,6 +40,9 @@ EXCLUDE = {
 SHAPES = [(3,), (2, 3), (3, 3), (2, 2, 3), ()]
 # functions whose NumPy domain is the symmetric / Hermitian matrices (NumPy reads one triangle): composed with a symmetrising map
 SYMMETRIC_DOMAIN = {"linalg.cholesky", "linalg.eigh", "linalg.eigvalsh"}
+# outputs with a continuous gauge freedom that LAPACK fixes by a convention which is not part of the mathematical function
+# (phase of complex eigenvectors): reduced to gauge-invariant quantities before scalarising
+GAUGE = {"linalg.eig": lambda r, ns: (r[0], ns.real(r[1] * ns.conj(r[1])))}
 
 
 def catalog():
@@ -216,6 +219,8 @@ def sweep_body(c):
         if sym and onp.ndim(_val(x)) >= 2:
             x = (x + ns.swapaxes(x, -1, -2)) / 2
         y = fn(*make_args(x))
+        if label in GAUGE:
+            y = GAUGE[label](y, ns)
         return scalarise(y, ns, vseed)[0]
 
     state = onp.random.get_state()
